@@ -38,6 +38,7 @@ fn run() -> Result<i32, Harness> {
             Some("C18") => checks::c18::check(&cfg),
             Some("C17") => checks::c17::check(&cfg),
             Some("C16") => checks::c16::check(&cfg),
+            Some("C06") => checks::c06::check(&cfg),
             _ => usage(),
         },
         Some("replay") => {
@@ -47,6 +48,7 @@ fn run() -> Result<i32, Harness> {
                 "C18" => checks::c18::replay(&cfg, &v)?,
                 "C17" => checks::c17::replay(&cfg, &v)?,
                 "C16" => checks::c16::replay(&cfg, &v)?,
+                "C06" => checks::c06::replay(&cfg, &v)?,
                 other => return Err(Harness(format!("no replay for {other}"))),
             };
             match got {
